@@ -363,6 +363,17 @@ func (r *standardRenderer) altScreen() bool {
 }
 
 func (r *standardRenderer) enterAltScreen() {
+	// Lines printed so far belong to the main screen: write them out before
+	// switching. Queued lines are only written while the alt screen is not
+	// active, so they would be lost if the program ended in the alt screen.
+	r.mtx.Lock()
+	pending := len(r.queuedMessageLines) > 0 && !r.altScreenActive
+	r.mtx.Unlock()
+	if pending {
+		// flush locks the mutex
+		r.flush()
+	}
+
 	r.mtx.Lock()
 	defer r.mtx.Unlock()
 
